@@ -71,6 +71,20 @@ theorem reader_never_blocked (cap : Option Nat) (evs : List Ev) :
     s.readerBusy = none ∧ s.backlog = [] :=
   (reachable_inv cap evs).1
 
+/-- Non-vacuity for the hypotheses used below (`Inv s`, cap reached, a running handler, room below the
+cap): the state reached after two admissions on a cap-2 connection, reader free, outbound non-empty. -/
+def exampleSt : St :=
+  run Gen.offFacts (St.init (some 2))
+    [.arrive ⟨7, .inline, false, false, 0⟩, .arrive ⟨1, .blocking, false, false, 0⟩, .arrive ⟨2, .blocking, true, true, 0⟩]
+
+example : Inv exampleSt ∧ exampleSt.cap = some 2 ∧ exampleSt.running.length = 2 ∧
+    (∃ r ∈ exampleSt.running, r.id = 1) ∧ exampleSt.outbound = [⟨7, 0⟩] ∧
+    takeRun 2 exampleSt.running = some (⟨2, true, true⟩, [⟨1, false, true⟩]) := by
+  refine ⟨reachable_inv _ _, by decide, by decide, ⟨⟨1, false, true⟩, by decide, rfl⟩, by decide, by decide⟩
+
+example : Inv (St.init (some 3)) ∧ ∀ c, (St.init (some 3)).cap = some c → (St.init (some 3)).running.length < c :=
+  ⟨inv_init _, by intro c h; cases h; decide⟩
+
 variable (s : St)
 
 /-- A blocking request that arrives with the cap reached: the reply `ResourceExhausted` carrying its id is
